@@ -1,4 +1,93 @@
-From Coq Require Import ZArith QArith List.
-From OMV Require Import Base.Val C15.Model.
-Theorem C15_placeholder : True. Proof. exact I. Qed.
-Print Assumptions C15_placeholder.
+(* C15 -- property theorems (statements only; proofs by [exact] of lemmas in Proofs*.v).
+   All grids are arbitrary strictly increasing lists of rationals: no sign assumption anywhere. *)
+From Coq Require Import ZArith QArith Qabs List.
+From OMV Require Import Base.Val C15.Model C15.Proofs1D C15.ProofsBracket C15.ProofsND.
+Import ListNotations.
+Open Scope Z_scope.
+Open Scope Q_scope.
+
+(* The bracket search: for every strictly increasing grid, every cached index and every x, the flag is
+   -1 / +1 exactly when x is below / above the grid, and otherwise the returned cell contains x. *)
+Theorem C15_bracket_correct : forall (g : list Q) (last0 : Z) (x : Q),
+  incr g -> (2 <= zlen g)%Z -> (0 <= last0 <= zlen g - 1)%Z ->
+  let idx := fst (bracket g last0 x) in
+  let flag := snd (bracket g last0 x) in
+  (flag = (-1)%Z /\ idx = 0%Z /\ x < gq g 0) \/
+  (flag = 1%Z /\ idx = (zlen g - 1)%Z /\ gq g (zlen g - 1) < x) \/
+  (flag = 0%Z /\ (0 <= idx <= zlen g - 1)%Z /\ gq g idx <= x /\ x <= gq g (Z.min (idx + 1) (zlen g - 1))).
+Proof. exact bracket_spec. Qed.
+Print Assumptions C15_bracket_correct.
+
+(* One-dimensional node exactness of all five methods (slinear, lagrange2, lagrange3, akima, cubic). *)
+Theorem C15_interp1_node : forall (m : method) (g : list Q) (idx k : Z) (vs : list Q),
+  grid_ok m g -> (0 <= idx <= zlen g - 1)%Z -> (k = idx \/ k = idx + 1)%Z -> (0 <= k <= zlen g - 1)%Z ->
+  interp1 m g idx (gq g k) vs == vq vs k.
+Proof. exact interp1_node. Qed.
+Print Assumptions C15_interp1_node.
+
+(* One-dimensional reproduction: linear functions for slinear, akima and the natural cubic spline,
+   quadratics for lagrange2, cubics for lagrange3 -- at every x, inside or outside the grid. *)
+Theorem C15_interp1_reproduces : forall (m : method) (g : list Q) (idx : Z) (x : Q) (vs : list Q) (f : Q -> Q),
+  grid_ok m g -> (0 <= idx <= zlen g - 1)%Z -> is_poly (deg m) f ->
+  (forall k, (0 <= k < zlen g)%Z -> vq vs k == f (gq g k)) ->
+  interp1 m g idx x vs == f x.
+Proof. exact interp1_repro. Qed.
+Print Assumptions C15_interp1_reproduces.
+
+(* Tables of any dimension (induction on the dimension): every function that is a polynomial of the
+   method's degree in each coordinate separately (multilinear; tensor-product quadratic / cubic) is
+   reproduced exactly from its table. *)
+Theorem C15_tensor_reproduces : forall (m : method) (gs : list (list Q)) (idxs : list Z) (xs : list Q)
+                                       (F : list Q -> Q),
+  Forall (grid_ok m) gs -> Forall2 idx_ok gs idxs -> length xs = length gs ->
+  cwpoly (deg m) (length gs) F ->
+  evalND m gs idxs xs (tabulate gs F) == F xs.
+Proof. exact tensor_reproduces. Qed.
+Print Assumptions C15_tensor_reproduces.
+
+(* Whole calls: for any number of points evaluated one after the other through the same table object,
+   whatever the cached bracket indices are, every returned value is the function value ... *)
+Theorem C15_call_reproduces : forall (m : method) (gs : list (list Q)) (F : list Q -> Q)
+                                     (pts : list (list Q)) (ls : list Z),
+  Forall (grid_ok m) gs -> lasts_ok gs ls -> Forall (fun pt => length pt = length gs) pts ->
+  cwpoly (deg m) (length gs) F ->
+  Forall2 (fun v pt => v == F pt) (eval_points m gs (tabulate gs F) ls pts) pts.
+Proof. exact eval_points_reproduces. Qed.
+Print Assumptions C15_call_reproduces.
+
+(* ... and every grid node returns the table entry, for arbitrary table values. *)
+Theorem C15_call_nodes : forall (m : method) (gs : list (list Q)) (T : tensor) (kss : list (list Z)) (ls : list Z),
+  Forall (grid_ok m) gs -> shaped gs T -> lasts_ok gs ls ->
+  Forall (fun ks => Forall2 (fun g k => (0 <= k <= zlen g - 1)%Z) gs ks) kss ->
+  Forall2 (fun v ks => v == tget T ks) (eval_points m gs T ls (map (coords gs) kss)) kss.
+Proof. exact eval_points_nodes. Qed.
+Print Assumptions C15_call_nodes.
+
+(* The out-of-bounds decision of the repaired code (eps = 1e-14*abs(grid[-1]) >= 0): the test fires
+   exactly outside the eps-widened grid ... *)
+Theorem C15_oob_decision_exact : forall (g : list Q) (p : Q),
+  0 <= eps_fixed g /\
+  (oob_test (eps_fixed g) g p = true <-> p < gq g 0 - eps_fixed g \/ glast g + eps_fixed g < p).
+Proof. exact oob_decision_exact. Qed.
+Print Assumptions C15_oob_decision_exact.
+
+(* ... so calls on in-bounds points are never rejected (any grid, any sign) ... *)
+Theorem C15_inbounds_accepted : forall (m : method) (gs : list (list Q)) (T : tensor) (pts : list (list Q)),
+  Forall2 inb gs (columns (length gs) pts) ->
+  run_fixed m gs T false pts = vqs (eval_points m gs T (map (fun _ => 0%Z) gs) pts).
+Proof. exact run_fixed_accepts. Qed.
+Print Assumptions C15_inbounds_accepted.
+
+(* ... and a rejection always names a genuine violator (OutOfBoundsError, never the KeyError). *)
+Theorem C15_rejection_is_out_of_bounds : forall (gs : list (list Q)) (cols : list (list Q)) (i j c : Z),
+  oob_scan eps_fixed i gs cols = Some (j, c) -> c = 1%Z.
+Proof. exact oob_scan_fixed_code. Qed.
+Print Assumptions C15_rejection_is_out_of_bounds.
+
+(* The code of the pinned commit (eps = 1e-14*grid[-1]) violates this on all-negative grids. *)
+Theorem C15_oob_present_refuted :
+  exists g p, incrb g = true /\ gq g 0 <= p /\ p <= glast g /\
+              oob_test (eps_present g) g p = true /\ truly_out g p = false /\
+              oob_scan eps_present 0 [g] [[p]] = Some (0%Z, 2%Z).
+Proof. exact oob_present_refuted. Qed.
+Print Assumptions C15_oob_present_refuted.
